@@ -7,7 +7,7 @@ HERE = os.path.dirname(os.path.abspath(__file__))
 
 CHECKS = {
     "C01": {
-        "technique": "static analysis: MIR dataflow + impl-table rules (kind-set soundness, dispatch agreement, cache integrity, prefilter guard); must-pass-through of the kind index (every node looked up, every kind registered); sibling agreement of range-overlap boundaries; RuleCollection invariants (bucket uniqueness vs first-bucket readers, both storages read); single-skip-edge rule for find_all; rule-loading completeness (no dropping step between parsed rule files and the loaded list)",
+        "technique": "static analysis: MIR dataflow + impl-table rules (kind-set soundness, dispatch agreement, cache integrity, prefilter guard); must-pass-through of the kind index (every node looked up, every kind registered); sibling agreement of range-overlap boundaries; RuleCollection invariants (bucket uniqueness vs first-bucket readers, both storages read); single-skip-edge rule for find_all; rule-loading completeness (no dropping step between parsed rule files and the loaded list); evaluation of the literal routine with the constant each strictness arm passes (unnamed tokens match by kind alone); no Vec of matches is thinned",
         "text": "Static structural argument over the type-checked program (MIR of every Matcher impl, impl tables, call graph): decides the necessary conditions under which skipping by node kind or by literal substring cannot drop a match — who may restrict kinds, combinator polarity, cache integrity, skip sites test the matcher they run, strictness guard of the literal prefilter. It holds for all inputs because it is a statement about all paths of the code; it does not decide per-node matching itself. Also decided: every traversed node reaches the kind lookup and every potential kind is registered in the combined index; byte-range overlap filters use the half-open boundary.",
         "note": "Trusted: nightly rustc MIR/trait resolution; bit-set/tree-sitter/regex dependencies; reviewed same-node/other-node classification tables re-derived from MIR each run.",
         "design": "DESIGN.md §2 C01",
@@ -25,13 +25,13 @@ CHECKS = {
         "design": "DESIGN.md §2 C08",
     },
     "C09": {
-        "technique": "static analysis: funnel (must-call / must-not-call) rules on front-end entry points, dominance check of the LSP stale-version guard; loop/pipeline completeness (no finding dropped before its emit), range provenance of listed findings; scanned-text identity (read_file); RuleCollection invariants (off rules never stored, bucket uniqueness, both storages read); message rendered per match (call inside the loop over matches); character-column rule for printed positions",
+        "technique": "static analysis: funnel (must-call / must-not-call) rules on front-end entry points, dominance check of the LSP stale-version guard; loop/pipeline completeness (no finding dropped before its emit), range provenance of listed findings; scanned-text identity (read_file); RuleCollection invariants (off rules never stored, bucket uniqueness, both storages read); message rendered per match (call inside the loop over matches); character-column rule for printed positions; must-pass-through of the client publish in Backend::publish_diagnostics",
         "text": "Static funnel argument: each front end obtains findings only from CombinedScan::scan over rules selected by the rule collection, messages only via RuleConfig::get_message; in the LSP change handler the version test dominates replacement and publication. Interleavings of concurrent handlers are not decided. Also decided: between scan result and listing no loop can skip its emit and no pipeline drops elements; the listed range is the matched node's; the combined index `sg test` is compared against is complete.",
         "note": "Trusted: MIR construction incl. coroutine lowering (CFG re-linked at resume points); tower-lsp scheduling is out of scope.",
         "design": "DESIGN.md §2 C09",
     },
     "C10": {
-        "technique": "static analysis: call-path counting (exactly-once Tree::edit), provenance of every point handed to Tree::edit relative to the splice (buffer reads before/after), single-writer rule; must-pass-through of the re-parse; edit description passed on unmodified; every field of Root rewritten by the edit (no stale cache); who-supplies-the-parser rule (origin of the parser handed to the re-parse is not a cache / shared cell / static); constructor keeps the given text (identity flow)",
+        "technique": "static analysis: call-path counting (exactly-once Tree::edit), provenance of every point handed to Tree::edit relative to the splice (buffer reads before/after), single-writer rule; must-pass-through of the re-parse; edit description passed on unmodified; every field of Root rewritten by the edit (no stale cache); who-supplies-the-parser rule (origin of the parser handed to the re-parse is not a cache / shared cell / static); constructor keeps the given text (identity flow); who-may-call rule on set_included_ranges (the re-parse covers the whole text)",
         "text": "Static protocol check of the edit description handed to tree-sitter: on every path old tree and text are updated by the same edit exactly once, positions are computed against the right text version (dominance relative to the splice), and nobody else can mutate the text behind the tree. A necessary condition of the behavioural property; tree-sitter itself is trusted. Also decided: every path after perform_edit re-parses; no function on the way to do_edit rewrites a field of the Edit.",
         "note": "Trusted: tree-sitter's incremental parser given a correct InputEdit; MIR construction.",
         "design": "DESIGN.md §2 C10",
@@ -49,7 +49,7 @@ CHECKS = {
         "design": "DESIGN.md §2 C12",
     },
     "C13": {
-        "technique": "static analysis: hashed-iteration sink classification + ordering-funnel dominance rules; loop-invariance of the rewriter-inherited environment in the hash-ordered transform loop",
+        "technique": "static analysis: hashed-iteration sink classification + ordering-funnel dominance rules; loop-invariance of the rewriter-inherited environment in the hash-ordered transform loop; consumers of a hash-ordered name vector are membership/counting tests only (iterator followed to its consumer)",
         "text": "Static audit of every iteration over HashMap/HashSet/DashMap in workspace code: the iterator's sink is classified order-insensitive / order-sensitive; sensitive sites must be in a reviewed table or are violations; ordering funnels (toposort, sorts before dispatch, ordered snapshot maps) are checked by dominance.",
         "note": "Trusted: reviewed table /verif/tables/hash_order.json; dependencies deterministic; file enumeration order only affects emission order.",
         "design": "DESIGN.md §2 C13",
@@ -61,13 +61,13 @@ CHECKS = {
         "design": "DESIGN.md §2 C17",
     },
     "C18": {
-        "technique": "static analysis: field-read provenance (announce/apply share one datum), who-may-write-files rule, loop rule for one payload per path; output-option read audit (announce/apply modes scan alike); payload completeness; frame agreement; half-open overlap boundary; scan-loop exhaustion independent of the mode flag; splice purity; consumer-state audit",
+        "technique": "static analysis: field-read provenance (announce/apply share one datum), who-may-write-files rule, loop rule for one payload per path; output-option read audit (announce/apply modes scan alike); payload completeness; frame agreement; half-open overlap boundary; scan-loop exhaustion independent of the mode flag; splice purity; consumer-state audit; dominance of the suppression test over every store of a match in the scan loop",
         "text": "Static argument that the JSON announcer and the applier read the same Diff fields, that only the interactive printer writes user files, and that no producer creates several whole-file Diffs payloads for one path inside a loop over documents. Also decided: producers read output options only through needs_interactive; every fixable match reaches the accept loop; the splice base is the document text; overlap filters use the half-open boundary.",
         "note": "Trusted: std::fs; byte-level equality of the written file is value-level and not decided.",
         "design": "DESIGN.md §2 C18",
     },
     "C20": {
-        "technique": "static analysis: impl-table uniformity rules over all Language impls (recogniser funnel, expando<->pre-processing pairing, exhaustive language table); unit discipline of substring indices (character counts vs byte lengths); literal-coverage rule of the template scanner loop; sign test before index casts; validation dominates every accepting return of the recogniser; who-may-call rule on the template constructor (sigil argument is the language's meta_var_char); truth-table evaluation of two-flag decisions in the engine's meta-variable dispatch",
+        "technique": "static analysis: impl-table uniformity rules over all Language impls (recogniser funnel, expando<->pre-processing pairing, exhaustive language table); unit discipline of substring indices (character counts vs byte lengths); literal-coverage rule of the template scanner loop; sign test before index casts; validation dominates every accepting return of the recogniser; who-may-call rule on the template constructor (sigil argument is the language's meta_var_char); truth-table evaluation of two-flag decisions in the engine's meta-variable dispatch; must-pass-through of the recogniser call in pattern conversion",
         "text": "Static uniformity argument over the impl tables: every language ends in the one meta-variable recogniser, overrides expando_char iff it pre-processes patterns with the shared routine and its own expando, wrappers forward, the language table is exhaustive. The An+B/substring notations are value-level and declined. Of the small notations only the unit discipline of `substring` is decided (character counts end to end); the An+B arithmetic and the sigil-prefix scanners stay value level (three seeded changes there are deliberately not caught).",
         "note": "Trusted: compiler impl tables; tree-sitter grammars accept the expando character as an identifier character.",
         "design": "DESIGN.md §2 C20",
